@@ -4,6 +4,6 @@ CONSTANTS
   Ns = {1, 2, 3}
   AllowFail = TRUE
 VIEW View
-INVARIANTS TypeOK C18_RefShape C18_RefRevision C18_RefLogical C18_RefUntouched C18_RefValid C18_PublishedIsPersisted GapFree
+INVARIANTS TypeOK C18_RefShape C18_RefRevision C18_RefLogical C18_RefCounted C18_RefUntouched C18_RefValid C18_PublishedIsPersisted GapFree
 PROPERTIES C18_PartitionIndependent C18_ReplayChangesNothing C18_RevisionArithmetic C18_FailedSavePublishesNothing
 CHECK_DEADLOCK FALSE
